@@ -493,10 +493,12 @@ def judge(ctx, runs: list, tag: str, allowed: dict | None = None) -> None:
     for run in runs:
         tr, why = to_trace(run)
         if tr is None:
-            ctx.extra["discarded_runs"] = ctx.extra.get("discarded_runs", 0) + 1
-            reasons = ctx.extra.setdefault("discard_reasons", {})
+            # (runs that say nothing - an injection that landed outside the save, a tracer that attached late: their number
+            # depends on the load of the machine, it is reported as text and not as a measure of the work done)
+            reasons = ctx.extra.setdefault("_discard_reasons", {})
             key = why.split(":")[0][:60]
             reasons[key] = reasons.get(key, 0) + 1
+            ctx.extra["unusable_runs_not_judged"] = "; ".join(f"{k}: {v}" for k, v in sorted(reasons.items()))
             continue
         usable.append(run)
         traces.append(tr)
@@ -712,6 +714,7 @@ def run(ctx):
     ctx.extra["wall_waiting_for_mc_f2_s"] = round(time.time() - t0, 1)
 
     ex = ctx.extra.pop("_exercised", set())
+    ctx.extra.pop("_discard_reasons", None)
     missing = sorted(k for k in allowed if k not in ex)
     ctx.extra["model_fault_positions_exercised_on_code"] = len(ex)
     ctx.extra["model_fault_positions_not_exercised"] = len(missing)
